@@ -77,7 +77,7 @@ var spec = &hx.Spec[Case]{
 	ID:    "C14",
 	Level: "fault_enumeration",
 	Rule: "cases = (matrix) client/server/upstream compression x skip-verify per hop x writable x history of get/has/put/put-invalid over chunks planted as present/missing/other-format-only/corrupt, " +
-		"chunk lengths 1 B..100 kB (1 MB thorough) and, in about 1 matrix case of 25, chunks whose transfer form is around or above the default maximum chunk size (256 KiB-40..256 KiB+8, ..300 KiB, ..1 MiB; incompressible and compressible), " +
+		"chunk lengths 1 B..100 kB (1 MB thorough) and, in about 1 matrix case of 40, chunks whose transfer form is around or above the default maximum chunk size (256 KiB-40..256 KiB+8, ..300 KiB, ..1 MiB; incompressible and compressible), " +
 		"plus fixed cases with raw and compressed transfer lengths 256 KiB-1, 256 KiB, 256 KiB+1, 300 KiB, 1 MiB x write verification on/off x upstream format; " +
 		"(index) history of get/reader/head/put over index names planted as present/missing/garbage; " +
 		"(script) method x ErrorRetry 0..4 x per-attempt server responses (200, 404, 400/401/403, 500/502/503, connection close/RST, truncated body) of length <= 6, all scripts of length <= 4 x retry 0..3 enumerated for GetChunk and HasChunk; " +
